@@ -63,6 +63,8 @@ def run(chk, tier, scale=1.0):
     # directed: two clients whose ids agree in their low bits, live at the same time (half on the unsanitized build)
     for rs in vcommon.pmap(pcommon.script_worker, pcommon.collision_jobs(b, chk.seed, PROPS, int((160 if tier == "quick" else 4000) * scale), plain=bplain)):
         prun.fold(chk, "C01", rs)
+    for rs in vcommon.pmap(pcommon.script_worker, pcommon.reload_jobs(b, chk.seed, PROPS, int((180 if tier == "quick" else 4500) * scale), tag="rls1")):
+        prun.fold(chk, "C01", rs)
     # exhaustive orders of a 7-event script: two instances of one id, queries, replies, disconnect
     perms = list(itertools.permutations(range(len(SCRIPT))))
     if tier == "quick":
